@@ -529,10 +529,11 @@ func (w *world) runReader(rr *readerRun, wg *sync.WaitGroup) {
 		}
 		if memErr == log_buffer.ResumeError {
 			rr.resumeErrs++
-			if rr.resumeErrs > 1000 {
+			if rr.resumeErrs > 20000 {
 				rr.stuck = true
 				return
 			}
+			lastGen = w.waitGen(lastGen, func() bool { return false }) // the server sleeps 1.1 s here
 			continue
 		}
 		return // waitFn said stop (or an error from the callback, which never fails here)
@@ -988,8 +989,8 @@ func main() {
 	}
 	batch := &batchNo
 
-	nSched := r.Pick(30, 300)
-	repeats := r.Pick(3, 10)
+	nSched := r.Pick(30, 120)
+	repeats := r.Pick(3, 4)
 
 	if r.Replay != "" {
 		var d struct {
@@ -1069,5 +1070,5 @@ func main() {
 	if sum("events") == 0 || sum("rotations_flushes") == 0 || sum("disk_fallbacks") == 0 || sum("schedules_lag_le2") == 0 {
 		r.Inconclusive("nothing observed (events / rotations / disk fall-backs / in-step schedules)")
 	}
-	r.Finish(r.Pick(20, 200))
+	r.Finish(r.Pick(20, 100))
 }
